@@ -1985,7 +1985,7 @@ func main() {
 		}
 	}
 	err := g.w.Close(emit.Meta{Property: "C02", Tier: cfg.Tier, Seed: cfg.Seed,
-		Rule:  "per 14 cases: 1 oidc.FindMatchingKey on random key lists built around the query (near-miss kid / use); 2 oidc.CheckSignature and 5 the five public verifiers (rp.VerifyIDToken, op.VerifyAccessToken, op.VerifyIDTokenHint, op.VerifyJWTAssertion with the default SubjectIsIssuer or a SubjectCheck admitting delegation, storage-backed or with a caller's key set, op.ParseRequestObject) on a really signed token (algorithm sweep RS/PS/ES/EdDSA/HS; 1/12 with a payload beyond 1 KiB / 4 KiB) with one mutation of the catalogue (about half benign, payload smuggling twice as often) against library key sets (op.OpenIDKeySet, rp remote key set incl. warm/stale cache, jwtProfileKeySet storage, static) built around the signer's key with distractors, near-miss kid / use, kid-less twins; 1 sequence of 3-5 oidc.CheckSignature calls on ONE remote key set while the provider rotates / adds / withdraws keys or is unreachable (tokens signed by current, withdrawn or foreign keys, 9/20 of the later tokens DERIVED from earlier ones by exchanging one of header / payload / signature or replayed; the number of successful downloads is observed); 1 sequence of 2-4 assertions of different issuers on ONE JWTProfileVerifier (own key / key of a client served before / delegation); 2 sequences of 2-4 tokens on ONE instance of each verifier kind and its one key set (genuinely signed family: two signers, full / alternative / sparse claims, stranger; members as signed or with exactly one of header / payload / signature from another member, random order); 2 op.NewProvider option patterns (key set options none / one / both, verifier options, static or per-request issuer) with a token signed by a key of the storage / access-token / hint set. Non-trivial = model path class != 0 (anything but an empty key list / ParseToken reject); distinct = distinct input term.",
+		Rule:  "per 15 cases: 1 multi-tenant provider (per-request issuer, issuer-dependent Storage.KeySet, default key set) with 2-3 verifications, the first mostly held inside Storage.KeySet while the others run (tokens genuine / signed with another tenant's key / of another tenant); the caller's key slice is compared before and after FindMatchingKey; half of the remote key set sequences and 2/5 of the instance sequences on published key sets use mixed key families with twins and kid-less tokens; 1/3 of the instance sequences run their calls in parallel; 1 oidc.FindMatchingKey on random key lists built around the query (near-miss kid / use); 2 oidc.CheckSignature and 5 the five public verifiers (rp.VerifyIDToken, op.VerifyAccessToken, op.VerifyIDTokenHint, op.VerifyJWTAssertion with the default SubjectIsIssuer or a SubjectCheck admitting delegation, storage-backed or with a caller's key set, op.ParseRequestObject) on a really signed token (algorithm sweep RS/PS/ES/EdDSA/HS; 1/12 with a payload beyond 1 KiB / 4 KiB) with one mutation of the catalogue (about half benign, payload smuggling twice as often) against library key sets (op.OpenIDKeySet, rp remote key set incl. warm/stale cache, jwtProfileKeySet storage, static) built around the signer's key with distractors, near-miss kid / use, kid-less twins; 1 sequence of 3-5 oidc.CheckSignature calls on ONE remote key set while the provider rotates / adds / withdraws keys or is unreachable (tokens signed by current, withdrawn or foreign keys, 9/20 of the later tokens DERIVED from earlier ones by exchanging one of header / payload / signature or replayed; the number of successful downloads is observed); 1 sequence of 2-4 assertions of different issuers on ONE JWTProfileVerifier (own key / key of a client served before / delegation); 2 sequences of 2-4 tokens on ONE instance of each verifier kind and its one key set (genuinely signed family: two signers, full / alternative / sparse claims, stranger; members as signed or with exactly one of header / payload / signature from another member, random order); 2 op.NewProvider option patterns (key set options none / one / both, verifier options, static or per-request issuer) with a token signed by a key of the storage / access-token / hint set. Non-trivial = model path class != 0 (anything but an empty key list / ParseToken reject); distinct = distinct input term.",
 		Extra: map[string]any{"clock_ambiguous": g.amb}})
 	if err != nil {
 		fmt.Fprintln(os.Stderr, err)
